@@ -179,7 +179,7 @@ func (propC08) Plan(tier string) (int, int) {
 	if tier == "thorough" {
 		return 120000, 0
 	}
-	return 4000, 0
+	return 8000, 0
 }
 func (propC08) Gen(seed uint64, tier string, idx int) any {
 	r := NewRNG(seed)
@@ -272,7 +272,7 @@ func (propC18) Plan(tier string) (int, int) {
 	if tier == "thorough" {
 		return 120000, 0
 	}
-	return 4000, 0
+	return 8000, 0
 }
 func (propC18) Gen(seed uint64, tier string, idx int) any {
 	r := NewRNG(seed)
